@@ -1,9 +1,6 @@
 package mc
 
 import (
-	"fmt"
-	"runtime"
-	"strings"
 	"sync"
 	"sync/atomic"
 	"unsafe"
@@ -368,7 +365,17 @@ var _ = atomic.AddInt32
 type access struct {
 	g    int
 	clk  uint32
-	site string
+	site int
+}
+
+// SiteNames maps static access-site ids (assigned by instr) to source positions.
+var SiteNames = []string{"?"}
+
+func siteName(i int) string {
+	if i >= 0 && i < len(SiteNames) {
+		return SiteNames[i]
+	}
+	return "?"
 }
 
 type shadowCell struct {
@@ -384,19 +391,19 @@ func Access[T any](p *T, write bool) {
 	if s == nil || !s.opt.Races || s.poison || s.cur == nil || p == nil {
 		return
 	}
-	s.access(unsafe.Pointer(p), write)
+	s.access(unsafe.Pointer(p), write, 0)
 }
 
 // AccessMap is Access for a map (keyed by the map header).
-func AccessMap[M ~map[K]V, K comparable, V any](m M, write bool) {
+func AccessMap[M ~map[K]V, K comparable, V any](m M, write bool, site int) {
 	s := S
 	if s == nil || !s.opt.Races || s.poison || s.cur == nil || m == nil {
 		return
 	}
-	s.access(*(*unsafe.Pointer)(unsafe.Pointer(&m)), write)
+	s.access(*(*unsafe.Pointer)(unsafe.Pointer(&m)), write, site)
 }
 
-func (s *Sched) access(p unsafe.Pointer, write bool) {
+func (s *Sched) access(p unsafe.Pointer, write bool, site int) {
 	g := s.cur
 	if s.shadow == nil {
 		s.shadow = map[unsafe.Pointer]*shadowCell{}
@@ -406,13 +413,12 @@ func (s *Sched) access(p unsafe.Pointer, write bool) {
 		c = &shadowCell{}
 		s.shadow[p] = c
 	}
-	me := access{g: g.ID, clk: g.clock.get(g.ID) + 1}
+	me := access{g: g.ID, clk: g.clock.get(g.ID) + 1, site: site}
 	report := func(o access, ow bool) {
 		if len(s.res.Races) >= 16 {
 			return
 		}
-		me.site = accessSite()
-		s.res.Races = append(s.res.Races, RaceInfo{Addr: uintptr(p), Site1: o.site, Site2: me.site, G1: o.g, G2: g.ID, W1: ow, W2: write})
+		s.res.Races = append(s.res.Races, RaceInfo{Addr: uintptr(p), Site1: siteName(o.site), Site2: siteName(me.site), G1: o.g, G2: g.ID, W1: ow, W2: write})
 	}
 	if c.hasW && c.w.g != g.ID && c.w.clk > g.clock.get(c.w.g) {
 		report(c.w, true)
@@ -423,7 +429,6 @@ func (s *Sched) access(p unsafe.Pointer, write bool) {
 				report(r, false)
 			}
 		}
-		me.site = accessSite()
 		c.w, c.hasW = me, true
 		c.reads = c.reads[:0]
 		return
@@ -434,55 +439,33 @@ func (s *Sched) access(p unsafe.Pointer, write bool) {
 			return
 		}
 	}
-	me.site = accessSite()
 	c.reads = append(c.reads, me)
 }
 
-func accessSite() string {
-	pcs := make([]uintptr, 8)
-	n := runtime.Callers(3, pcs)
-	frames := runtime.CallersFrames(pcs[:n])
-	for {
-		f, more := frames.Next()
-		if !strings.Contains(f.Function, "verifmc/") {
-			file := f.File
-			if i := strings.LastIndex(file, "/"); i >= 0 {
-				if j := strings.LastIndex(file[:i], "/"); j >= 0 {
-					file = file[j+1:]
-				}
-			}
-			return fmt.Sprintf("%s:%d", file, f.Line)
-		}
-		if !more {
-			return "?"
-		}
-	}
-}
-
 // R records a read of *p by the running goroutine and returns p.
-func R[T any](p *T) *T {
+func R[T any](p *T, site int) *T {
 	if s := S; s != nil && s.opt.Races && !s.poison && s.cur != nil && p != nil {
-		s.access(unsafe.Pointer(p), false)
+		s.access(unsafe.Pointer(p), false, site)
 	}
 	return p
 }
 
 // W records a write of *p by the running goroutine and returns p.
-func W[T any](p *T) *T {
+func W[T any](p *T, site int) *T {
 	if s := S; s != nil && s.opt.Races && !s.poison && s.cur != nil && p != nil {
-		s.access(unsafe.Pointer(p), true)
+		s.access(unsafe.Pointer(p), true, site)
 	}
 	return p
 }
 
 // MR records a read of map m and returns m.
-func MR[M ~map[K]V, K comparable, V any](m M) M {
-	AccessMap(m, false)
+func MR[M ~map[K]V, K comparable, V any](m M, site int) M {
+	AccessMap(m, false, site)
 	return m
 }
 
 // MW records a write of map m and returns m.
-func MW[M ~map[K]V, K comparable, V any](m M) M {
-	AccessMap(m, true)
+func MW[M ~map[K]V, K comparable, V any](m M, site int) M {
+	AccessMap(m, true, site)
 	return m
 }
